@@ -267,11 +267,14 @@ theorem client_ns_counts_up_on_the_wire (c : Cli) (as : List (List Nat)) (h0 : c
 example : sentCount ({ p := { k := 2, w := 8, t0 := 10, t1 := 15, t2 := 10, t3 := 20, asduHdr := 6 }, phase := 3, running := true } : Cli) [[100, 1, 3, 0, 1, 0, 1, 0, 0, 1], [100, 1, 3, 0, 1, 0, 2, 0, 0, 1], [100, 1, 3, 0, 1, 0, 3, 0, 0, 1]] = 2 := by
   decide
 
-/-- **client, N(S) on the wire over every interleaving of send calls and received messages.** From V(S) = 0 on a socket
-that accepts writes, whatever the application sends and whatever arrives in between (acknowledgements that release the
-window, I-format APDUs, U-format requests the client answers on the same socket, malformed messages), the I-format APDUs
+/-- **client, N(S) on the wire over every history of an open connection.** From V(S) = 0 on a socket that accepts
+writes, whatever the application does (`MOp`: send calls accepted or refused, STARTDT / STOPDT requests) and whatever the
+connection thread does in between (received messages of any kind - acknowledgements that release the window, I-format
+APDUs, U-format requests answered on the same socket, malformed ones -, passes over the t1 / t2 / t3 timers with their
+S-format and TESTFR frames, the `w` test), in any order and number, the I-format APDUs
 the client has written carry N(S) = 0, 1, 2, ... modulo 32768 in the order they were written, one per accepted call
-(`Lemmas/Cli104VsMix.lean`: `checkMessage` keeps V(S) and writes only U-format confirmations). -/
+(`Lemmas/Cli104VsMix.lean`: `NsKeep` frame lemma for every function: only `sendAsdu` touches V(S) or writes an
+I-format APDU). -/
 theorem client_ns_counts_up_interleaved (c : Cli) (ops : List MOp) (h0 : c.vs = 0) (hl : c.log = [])
     (hw : CliWritable c) :
     nsLog (mixRun c ops).log = (List.range (mixSent c ops)).map (fun j => j % 32768) := by
@@ -279,10 +282,10 @@ theorem client_ns_counts_up_interleaved (c : Cli) (ops : List MOp) (h0 : c.vs = 
   rw [this, hl, h0]
   simp [nsLog]
 
-/-- non-vacuity: k = 2; two sends, a third refused, an S-format acknowledgement of both, then the third is accepted -/
+/-- non-vacuity: k = 2; two sends, a third refused, a timer pass, an S-format acknowledgement of both, then the third is accepted, STOPDT -/
 example : mixSent ({ p := { k := 2, w := 8, t0 := 10, t1 := 15, t2 := 10, t3 := 20, asduHdr := 6 }, phase := 3, running := true } : Cli)
     [.send [100, 1, 3, 0, 1, 0, 1, 0, 0, 1], .send [100, 1, 3, 0, 1, 0, 2, 0, 0, 1], .send [100, 1, 3, 0, 1, 0, 3, 0, 0, 1],
-     .recv [0x68, 4, 1, 0, 4, 0], .send [100, 1, 3, 0, 1, 0, 3, 0, 0, 1]] = 3 := by
+     .timers, .recv [0x68, 4, 1, 0, 4, 0], .ackW, .send [100, 1, 3, 0, 1, 0, 3, 0, 0, 1], .stopdt] = 3 := by
   decide
 
 end Client
